@@ -15,8 +15,8 @@ DRIVER = ("World + one RayTransferBox / RayTransferCylinder (unequal cell sizes)
           "(+ tangential / in-boundary-plane / through-rim specials, + periodic images); all masks / voxel maps of small grids")
 ALPHABET = {
     "box shapes": "nx,ny,nz in {1,2,3}^3, cells (1.0, 0.5, 0.75) [thorough: + cells (0.3, 0.7, 1.1)]",
-    "cylinder shapes": "n_r,n_phi,n_z in {1,2,3}^3, dr=0.5 dz=0.75, r_inner in {0, 0.5}, period in {360, 90, 60} "
-                       "[thorough: + period 120, 72 and dr=0.3 dz=0.7 r_inner=0.45]",
+    "cylinder shapes": "n_r,n_phi,n_z in {1,2,3}^3, dr=0.5 dz=0.75, r_inner in {0, 0.5}, period in {360, 90, 60, 51.4286 (rounded decimal of 360/7)} "
+                       "[thorough: + period 120, 72, 32.7273 and dr=0.3 dz=0.7 r_inner=0.45]",
     "steps": "default (0.1*min cell, constructor default), 0.3*min cell (constructor), 3*min cell (step setter; min_samples branch) "
              "[thorough: + 0.05*min cell, 1.0*min cell, 3*min cell with integrator.min_samples=5]",
     "transforms": "identity, translate, rotate_y(90deg), generic rigid (translate * Rz50 * Rx30 * Ry-20) "
@@ -110,14 +110,17 @@ def box_geoms(tier):
 def cyl_geoms(tier):
     out = []
     variants = [(CYL_DR, CYL_DZ, (0.0, 0.5), (360.0, 90.0, 60.0))]
+    # a period stated as a rounded decimal (360/7 = 51.428571...; the constructor accepts 360/period within 1e-3 of an integer): seven sectors
+    variants.append((CYL_DR, CYL_DZ, (0.5,) if tier != "thorough" else (0.0, 0.5), (None, 51.4286)))
     if tier == "thorough":
+        variants.append((CYL_DR, CYL_DZ, (0.0, 0.5), (None, 32.7273)))
         variants.append((CYL_DR, CYL_DZ, (0.0, 0.5), (120.0, 72.0)))
         variants.append((0.3, 0.7, (0.45,), (360.0, 90.0)))
     for dr, dz, rins, periods in variants:
         for shape in itertools.product((1, 2, 3), repeat=3):
             for rin in rins:
                 for per in periods:
-                    if shape[1] == 1 and per != periods[0]:
+                    if per is None or (shape[1] == 1 and per != periods[0]):
                         continue      # axisymmetric: the period plays no role
                     out.append({"kind": "cyl", "shape": list(shape), "dr": dr, "dz": dz, "rin": rin, "period": per})
     return out
@@ -655,7 +658,7 @@ def run_case(case):
                         continue
                     g1 = chords.sample_event_gap(ref, int(i), sv, ms)
                     g2 = chords.sample_event_gap(ref, int(i + m * nb), sv, ms)
-                    if min(g1, g2) < 1e-6:
+                    if min(g1, g2) < 1e-6 + ref.get("phi_slack_m", 0.0):
                         classes.append("periodic:fragile-sample-on-boundary")
                         continue
                     V.add("%s:periodic-image:%s" % (gc, _rcat(K[i])), "entries change when the ray is rotated about the axis by a whole number of periods",
